@@ -100,6 +100,7 @@ type Case struct {
 	DelayMs    int    `json:"delay_ms"`
 	DelayArg   *uint64 `json:"delay_arg,omitempty"`
 	Delays     map[string]int `json:"delays,omitempty"` // further points: sleep this many ms at every hit
+	HashAlg    string `json:"hash_alg,omitempty"`       // Options.HashAlg of both sides ("" = crc32c)
 }
 
 type Result struct {
@@ -604,9 +605,13 @@ func runCase(c Case) (res Result) {
 	if streams < 1 {
 		streams = 1
 	}
-	sopts := transfer.Options{ChunkSize: chunk, ParallelFiles: streams, Resume: true, ResumeVerifyTail: c.Tail, ResumeVerify: c.Verify, HashAlg: "crc32c"}
+	hashAlg := c.HashAlg
+	if hashAlg == "" {
+		hashAlg = "crc32c"
+	}
+	sopts := transfer.Options{ChunkSize: chunk, ParallelFiles: streams, Resume: true, ResumeVerifyTail: c.Tail, ResumeVerify: c.Verify, HashAlg: hashAlg}
 	sopts.ParamSource = func() transfer.RuntimeParams { return transfer.RuntimeParams{ChunkSize: chunk, ParallelFiles: streams} }
-	ropts := transfer.Options{Resume: c.Resume, NoRootDir: c.NoRoot, HashAlg: "crc32c", ParallelFiles: streams}
+	ropts := transfer.Options{Resume: c.Resume, NoRootDir: c.NoRoot, HashAlg: hashAlg, ParallelFiles: streams}
 
 	timeout := time.Duration(c.TimeoutMs) * time.Millisecond
 	if timeout == 0 {
